@@ -997,6 +997,19 @@ def register(M):
                 ev.write(pl, mk("havoc", mk("call", fty["path"], ev.read(pl)), 0))
         return mk(fty["path"].rsplit("::", 1)[-1], it, *args[1:])
 
+    @reg("std::iter::Iterator::partition")
+    def it_partition(ev, fr, prog, fty, args, cx):
+        # (elements satisfying p, the others), each in the order of the source
+        it = itv(ev, args[0])
+        if it.op == "eiter":
+            return NotImplemented
+        l, changed = ev.reify(args[1], 1, elem_of=it)
+        if changed:
+            return NotImplemented
+        x = tm.fresh("pe")
+        neg = tm.lam([x], tm.not_(tm.apply_lam(l, [x])))
+        return tm.tup(M.collect_vec(mk("filter", it, l)), M.collect_vec(mk("filter", it, neg)))
+
     @reg("std::iter::Iterator::skip")
     def it_skip(ev, fr, prog, fty, args, cx):
         return mk("skip", itv(ev, args[0]), args[1])
